@@ -475,7 +475,27 @@ def gen_scenario(rng, profile):
     if rng.random() < profile.get('dsfault_rate', 0.0):
         scn['dsfault'] = {'unit': rng.choice(sorted(units)), 'op': rng.choice(['validate', 'get', 'set', 'get', 'set']),
                           'at': rng.randint(1, 4)}
+    if kind in STREAM_KINDS and kind != 'sync_serial' and len(conns) >= 2 and rng.random() < profile.get('peer_close_rate', 0.0):
+        add_peer_close(rng, scn)
     return scn
+
+
+def add_peer_close(rng, scn, conn=None):
+    """The peer of one connection goes away (orderly close or reset) at an arbitrary instant of that connection's
+    history - between two requests, right after one, or between the pieces of a frame - while the other
+    connections carry on."""
+    conns = scn['conns']
+    c = rng.randrange(len(conns)) if conn is None else conn
+    times = []
+    for r in conns[c]:
+        times.append(r['at'])
+        for j in range(len(r.get('cuts') or [])):
+            times.append(r['at'] + (j + 1) * r.get('cutgap', 0.0))
+    if not times:
+        return
+    base = rng.choice(times)
+    at = round(max(0.0, base + rng.choice([-0.0004, 0.00001, 0.00001, 0.0004, 0.004])), 9)
+    scn.setdefault('peer_closes', []).append({'c': c, 'at': at, 'how': rng.choice(['eof', 'reset', 'reset'])})
 
 
 def derive(scn):
@@ -594,6 +614,23 @@ class Analysis(object):
                             pend[c][n]['delivered_seq'] = sq
         except Exception:
             pass
+        # a connection whose peer went away: what it sent within 50 ms before that instant, or would have
+        # sent afterwards, creates no obligation (the answer may be lost with the connection)
+        self.peer_closed = {}
+        for pc in scn.get('peer_closes') or []:
+            self.peer_closed[pc['c']] = min(pc['at'], self.peer_closed.get(pc['c'], 1e18))
+        for c, reqs in enumerate(scn['conns']):
+            if c not in self.peer_closed:
+                continue
+            n = 0
+            for r in reqs:
+                if r.get('raw') is not None:
+                    continue
+                t_last = r['at'] + len(r.get('cuts') or []) * r.get('cutgap', 0.0)
+                if t_last >= self.peer_closed[c] - 0.05 and n < len(pend[c]):
+                    pend[c][n]['after_drop'] = True
+                    pend[c][n]['peer_gone'] = True
+                n += 1
         ptr = [0] * len(pend)
         flat = [q for lst in pend for q in lst]
         # ---- walk executions in the order they happened
@@ -847,7 +884,7 @@ class Analysis(object):
                 if framing == 'tcp' and fr[2] != 0:
                     self.add('pid-nonzero', 'response protocol id %d' % fr[2], fc=fc)
                 self._judge_content(q, fr[3])
-            if fi < len(frames) and not self.skip_unmatched_output:
+            if fi < len(frames) and not self.skip_unmatched_output and c not in self.peer_closed:
                 self.add('response-extra', '%d frame(s) on connection %d that answer no request: %s'
                          % (len(frames) - fi, c, frames[fi][3].hex()[:60]))
         if res.stray:
